@@ -252,6 +252,9 @@ func (h *harness) apply(op Op) (ret M, panicMsg string) {
 	if op.Ev == "SaveReload" {
 		same, diffs, err := h.saveReload()
 		ret["same"] = same
+		if diffs == nil {
+			diffs = []string{}
+		}
 		ret["diffs"] = diffs
 		if err != nil {
 			ret["err"] = err.Error()
